@@ -15,6 +15,25 @@ META = {
 KEYED = ('get', 'get_mut', 'get_all', 'entry', 'remove')
 
 
+def check_sanitiser(R, tonic, rule):
+    """into_sanitized_headers removes names from the map in place (every value of every other name survives); no owned HeaderMap iteration"""
+    sh = tonic.body('metadata::map::MetadataMap::into_sanitized_headers')
+    R.saw(sh)
+    rm = sh.calls(pat='HeaderMap', name='remove')
+    R.check(len(rm) == 1 and mentions_field(sh.origin(rm[0][1]['args'][0]), 'headers'), rule, 'sanitiser-removes-in-place', site(sh), 'HeaderMap::remove on self.headers: %d site(s)' % len(rm))
+    rt = mirlib.returned_terms(sh)
+    R.check(len(rt) == 1 and field_names(rt[0][1])[-1:] == ['headers'], rule, 'sanitiser-returns-own-map', site(sh), 'returns %s (the same map, not a rebuilt one)' % (show(rt[0][1]) if rt else None))
+    offenders = []
+    for bd in tonic.bodies:
+        if bd.kind == 'promoted':
+            continue
+        for bb, t in bd.calls(name='into_iter'):
+            st = (t.get('self_ty') or '') + ' ' + (t.get('resolved') or '')
+            if re.search(r'(^|[ <])http::HeaderMap', st) and not st.strip().startswith('&'):
+                offenders.append('%s (%s)' % (short(bd.path), bd.loc(bb)))
+    R.check(not offenders, rule, 'no-owned-headermap-iteration', '', 'owned HeaderMap::into_iter sites in tonic (the 2nd.. value of a repeated name comes with key None and is easily dropped): %r' % offenders)
+
+
 def run(R):
     tonic = R.crate('tonic')
     W = spec('wire')
